@@ -352,11 +352,19 @@ class Gen(object):
                 if a is not None and a not in [dec(x) for x, _ in rules]:
                     rules.append([enc(a), r.choice(["domain", "path1", "path2", "subdomain"])])
             self.created_prefixes = []
+            pending = None
+            if r.random() < 0.15:
+                # clear() arrives while a crawl-batch request is still unfinished
+                pending = {"data": [[enc(self.lru()), [enc(self.lru()) for _ in range(r.randint(1, 4))]] for _ in range(r.randint(1, 3))], "steps": r.randint(1, 6)}
             if r.random() < 0.3:
                 # clear() without a rules argument: the trie is emptied, the in-RAM registry is kept
-                return {"op": "clear", "default": r.choice([None, None, "domain"]), "rules": None}
-            self.rules = [(dec(a), n) for a, n in rules]
-            return {"op": "clear", "default": r.choice([None, None, "domain", "path1", "empty", "never"]), "rules": rules}
+                o = {"op": "clear", "default": r.choice([None, None, "domain"]), "rules": None}
+            else:
+                self.rules = [(dec(a), n) for a, n in rules]
+                o = {"op": "clear", "default": r.choice([None, None, "domain", "path1", "empty", "never"]), "rules": rules}
+            if pending:
+                o["pending"] = pending
+            return o
         if k == "remove_rule":
             a = self.anchor()
             cands = [x for x, _ in self.rules]
